@@ -64,7 +64,15 @@ func (p *Prog) Expand(f *Func, opt ExpandOpt) *Func {
 	body.List = x.blockT(body.List, 0, true)
 	x.dropDeadClosures(body)
 	if opt.Defers {
-		if x.expandDefers(body, f.Type) && x.inlinedCalls == nil {
+		var named []types.Object
+		if f.Type.Results != nil {
+			for _, fld := range f.Type.Results.List {
+				for _, nm := range fld.Names {
+					named = append(named, x.info.Defs[nm])
+				}
+			}
+		}
+		if x.expandDefers(body, f.Type, named) && x.inlinedCalls == nil {
 			x.inlinedCalls = map[ast.Node]bool{}
 		}
 	}
@@ -110,6 +118,8 @@ type expander struct {
 	litStack []*ast.FuncLit
 	closures map[types.Object]*ast.FuncLit
 	after    map[ast.Stmt][]ast.Stmt
+	open     []ast.Node               // bodies of the callee copies currently being rewritten
+	ifNext   map[*ast.IfStmt]ast.Stmt // the statement following each if statement being rewritten
 	inlined  []*types.Func
 	results  []*types.Tuple // result tuples of the functions enclosing the statement being rewritten
 
@@ -205,12 +215,20 @@ func (x *expander) block(list []ast.Stmt, depth int) []ast.Stmt {
 // relative to everything else (after the callee's body, before the deferred
 // calls registered earlier by the enclosing function).
 func (x *expander) blockT(list []ast.Stmt, depth int, fnBody bool) []ast.Stmt {
+	return x.blockC(list, depth, fnBody, nil)
+}
+
+// blockC is blockT for a list whose last statement is followed, in execution
+// order, by cont (the statement after the if statement the list is an arm of).
+func (x *expander) blockC(list []ast.Stmt, depth int, fnBody bool, cont ast.Stmt) []ast.Stmt {
 	var out []ast.Stmt
 	for i := 0; i < len(list); i++ {
 		s := list[i]
 		var next ast.Stmt
 		if i+1 < len(list) {
 			next = list[i+1]
+		} else {
+			next = cont
 		}
 		x.tail = fnBody && i == len(list)-1
 		out = append(out, x.stmt(s, next, depth)...)
@@ -248,6 +266,9 @@ func (x *expander) stmt(s ast.Stmt, next ast.Stmt, depth int) []ast.Stmt {
 		if repl := x.boolAssignToIf(t, depth); repl != nil {
 			return x.block(repl, depth)
 		}
+		if len(t.Rhs) > 1 && len(t.Rhs) == len(t.Lhs) && (t.Tok == token.ASSIGN || t.Tok == token.DEFINE) && pureLvalues(t.Lhs) {
+			pre = x.hoistList(t.Rhs, depth)
+		}
 		if len(t.Rhs) == 1 && (t.Tok == token.ASSIGN || t.Tok == token.DEFINE) {
 			if call, ok := ast.Unparen(t.Rhs[0]).(*ast.CallExpr); ok {
 				pre = x.hoistArgs(call, depth)
@@ -257,6 +278,9 @@ func (x *expander) stmt(s ast.Stmt, next ast.Stmt, depth int) []ast.Stmt {
 			}
 		}
 	case *ast.ReturnStmt:
+		if len(t.Results) > 1 {
+			pre = x.hoistList(t.Results, depth)
+		}
 		if len(t.Results) == 1 {
 			if call, ok := ast.Unparen(t.Results[0]).(*ast.CallExpr); ok {
 				pre = x.hoistArgs(call, depth)
@@ -266,12 +290,16 @@ func (x *expander) stmt(s ast.Stmt, next ast.Stmt, depth int) []ast.Stmt {
 			}
 		}
 	case *ast.IfStmt:
+		if x.ifNext == nil {
+			x.ifNext = map[*ast.IfStmt]ast.Stmt{}
+		}
+		x.ifNext[t] = next
 		if t.Init != nil {
 			if x.inlinableStmt(t.Init, depth) {
 				init := t.Init
 				t.Init = nil
 				repl := x.stmt(init, t, depth)
-				rest := x.stmt(t, nil, depth)
+				rest := x.stmt(t, next, depth)
 				var tail []ast.Stmt
 				if x.after != nil {
 					tail = x.after[t]
@@ -298,6 +326,29 @@ func (x *expander) stmt(s ast.Stmt, next ast.Stmt, depth int) []ast.Stmt {
 				}
 			}
 		}
+	case *ast.SwitchStmt:
+		// `switch helper(args) {…}`: the tag is computed into a temporary first, so that the helper is expanded
+		// like any assigned call (and its constant returns can enter their case directly)
+		if call, ok := ast.Unparen(t.Tag).(*ast.CallExpr); ok && t.Init == nil {
+			if _, exp := x.target(call, depth); exp {
+				if typ := x.info.TypeOf(call); typ != nil {
+					if _, isTuple := typ.(*types.Tuple); !isTuple {
+						x.seq++
+						tmp := types.NewVar(call.Pos(), x.top.Pkg.Types, fmt.Sprintf("inl%d_tag", x.seq), typ)
+						def := &ast.Ident{NamePos: call.Pos(), Name: tmp.Name()}
+						x.info.Defs[def] = tmp
+						as := &ast.AssignStmt{Lhs: []ast.Expr{def}, TokPos: call.Pos(), Tok: token.DEFINE, Rhs: []ast.Expr{call}}
+						use := &ast.Ident{NamePos: call.Pos(), Name: tmp.Name()}
+						x.info.Uses[use] = tmp
+						if tv, ok := x.info.Types[call]; ok {
+							x.info.Types[use] = tv
+						}
+						t.Tag = use
+						return x.blockC([]ast.Stmt{as, t}, depth, false, next)
+					}
+				}
+			}
+		}
 	case *ast.LabeledStmt:
 		inner := x.stmt(t.Stmt, next, depth)
 		if len(inner) == 1 {
@@ -309,6 +360,42 @@ func (x *expander) stmt(s ast.Stmt, next ast.Stmt, depth int) []ast.Stmt {
 	}
 	x.descend(s, depth)
 	return append(pre, s)
+}
+
+// constSwitch: every case expression of sw is a constant, tags are compared by
+// value only, and no clause falls through (so entering a clause body directly
+// is what the switch would do for that value).
+func (x *expander) constSwitch(sw *ast.SwitchStmt) bool {
+	if _, ok := ast.Unparen(sw.Tag).(*ast.Ident); !ok {
+		return false
+	}
+	for _, st := range sw.Body.List {
+		cc, ok := st.(*ast.CaseClause)
+		if !ok {
+			return false
+		}
+		for _, e := range cc.List {
+			if tv, ok := x.info.Types[e]; !ok || tv.Value == nil {
+				return false
+			}
+		}
+		if n := len(cc.Body); n > 0 {
+			if br, ok := cc.Body[n-1].(*ast.BranchStmt); ok && br.Tok == token.FALLTHROUGH {
+				return false
+			}
+		}
+	}
+	return true
+}
+
+// pureLvalues: every left-hand side is a plain identifier (evaluating it has no effect and calls nothing).
+func pureLvalues(lhs []ast.Expr) bool {
+	for _, l := range lhs {
+		if _, ok := ast.Unparen(l).(*ast.Ident); !ok {
+			return false
+		}
+	}
+	return true
 }
 
 // inlinableStmt reports whether s is a statement form whose call would be expanded.
@@ -373,12 +460,27 @@ func (x *expander) descend(s ast.Node, depth int) {
 				x.descend(t.Init, depth)
 			}
 			x.descend(t.Cond, depth)
-			t.Body.List = x.block(t.Body.List, depth)
+			// the statement executed after either arm falls off its end
+			nx := x.ifNext[t]
+			t.Body.List = x.blockC(t.Body.List, depth, false, nx)
 			switch e := t.Else.(type) {
 			case *ast.BlockStmt:
-				e.List = x.block(e.List, depth)
+				e.List = x.blockC(e.List, depth, false, nx)
+			case *ast.LabeledStmt:
+				// an else-if that a jump-threaded return enters directly
+				repl := x.stmt(e.Stmt, nx, depth)
+				var tail []ast.Stmt
+				if x.after != nil {
+					tail = x.after[e.Stmt]
+					delete(x.after, e.Stmt)
+				}
+				if len(repl) == 1 && len(tail) == 0 {
+					e.Stmt = repl[0]
+				} else {
+					e.Stmt = &ast.BlockStmt{Lbrace: e.Pos(), List: append(repl, tail...), Rbrace: e.End()}
+				}
 			case *ast.IfStmt:
-				repl := x.stmt(e, nil, depth)
+				repl := x.stmt(e, nx, depth)
 				var tail []ast.Stmt
 				if x.after != nil {
 					tail = x.after[e]
@@ -541,7 +643,6 @@ func (x *expander) eligibleBody(fn *Func, call *ast.CallExpr, allowDefer bool) b
 // effect is evaluated before them, and returns the (already expanded)
 // statements computing the temporaries.
 func (x *expander) hoistArgs(call *ast.CallExpr, depth int) []ast.Stmt {
-	var pre []ast.Stmt
 	hasCall := func(e ast.Expr) bool {
 		found := false
 		ast.Inspect(e, func(n ast.Node) bool {
@@ -555,7 +656,26 @@ func (x *expander) hoistArgs(call *ast.CallExpr, depth int) []ast.Stmt {
 	if sel, ok := ast.Unparen(call.Fun).(*ast.SelectorExpr); ok && hasCall(sel.X) {
 		return nil
 	}
-	for i, a := range call.Args {
+	return x.hoistList(call.Args, depth)
+}
+
+// hoistList moves operands of list that are expandable single-result calls
+// into temporaries declared just before the statement (and expands them
+// there), left to right, stopping at the first operand holding a call that
+// stays in place, so the order of evaluation of calls is unchanged.
+func (x *expander) hoistList(list []ast.Expr, depth int) []ast.Stmt {
+	var pre []ast.Stmt
+	hasCall := func(e ast.Expr) bool {
+		found := false
+		ast.Inspect(e, func(n ast.Node) bool {
+			if _, ok := n.(*ast.CallExpr); ok {
+				found = true
+			}
+			return !found
+		})
+		return found
+	}
+	for i, a := range list {
 		inner, ok := ast.Unparen(a).(*ast.CallExpr)
 		if ok {
 			if _, exp := x.target(inner, depth); exp {
@@ -573,7 +693,7 @@ func (x *expander) hoistArgs(call *ast.CallExpr, depth int) []ast.Stmt {
 				if tv, ok := x.info.Types[inner]; ok {
 					x.info.Types[use] = tv
 				}
-				call.Args[i] = use
+				list[i] = use
 				pre = append(pre, x.stmt(as, nil, depth)...)
 				continue
 			}
@@ -583,6 +703,128 @@ func (x *expander) hoistArgs(call *ast.CallExpr, depth int) []ast.Stmt {
 		}
 	}
 	return pre
+}
+
+// shareResults maps, for each result position that qualifies, the callee's
+// local variable returned there to the caller's variable assigned from it.
+// It qualifies when every return of the callee yields either that one local
+// variable or nil at the position, the types are identical, neither variable
+// has its address taken or is mentioned inside a function literal, and the
+// caller's variable is a plain local: then no code can tell the two apart.
+func (x *expander) shareResults(cl *cloner, as *ast.AssignStmt, body *ast.BlockStmt, typ *ast.FuncType, declared map[types.Object]bool) {
+	if typ.Results == nil {
+		return
+	}
+	var named []types.Object
+	for _, fld := range typ.Results.List {
+		for _, nm := range fld.Names {
+			named = append(named, x.info.Defs[nm])
+		}
+	}
+	n := len(as.Lhs)
+	cand := make([]types.Object, n)
+	ok := make([]bool, n)
+	for i := range ok {
+		ok[i] = true
+	}
+	nret := 0
+	Walk(body, false, func(m ast.Node) {
+		r, isRet := m.(*ast.ReturnStmt)
+		if !isRet {
+			return
+		}
+		nret++
+		for i := 0; i < n; i++ {
+			var o types.Object
+			switch {
+			case len(r.Results) == n:
+				e := ast.Unparen(r.Results[i])
+				if id, isID := e.(*ast.Ident); isID {
+					if _, isNil := x.info.Uses[id].(*types.Nil); isNil {
+						continue
+					}
+					o = x.info.Uses[id]
+				}
+			case len(r.Results) == 0 && len(named) == n:
+				o = named[i]
+			}
+			if o == nil || !declared[o] || (cand[i] != nil && cand[i] != o) {
+				ok[i] = false
+				continue
+			}
+			cand[i] = o
+		}
+	})
+	if nret == 0 {
+		return
+	}
+	params := map[types.Object]bool{}
+	for _, fld := range typ.Params.List {
+		for _, nm := range fld.Names {
+			params[x.info.Defs[nm]] = true
+		}
+	}
+	used := map[types.Object]bool{}
+	for i := 0; i < n; i++ {
+		v := cand[i]
+		if !ok[i] || v == nil || params[v] || used[v] {
+			continue
+		}
+		if _, isVar := v.(*types.Var); !isVar {
+			continue
+		}
+		id, isID := ast.Unparen(as.Lhs[i]).(*ast.Ident)
+		if !isID || id.Name == "_" {
+			continue
+		}
+		lo := x.objOf(id)
+		lv, isVar := lo.(*types.Var)
+		if !isVar || lv.IsField() || (lv.Pkg() != nil && lv.Parent() == lv.Pkg().Scope()) || !types.Identical(lv.Type(), v.Type()) {
+			continue
+		}
+		esc := x.escapesIn(x.top.Body, lo) || x.escapesIn(body, v)
+		for _, b := range x.open { // callee copies being rewritten, not yet attached to the top body
+			esc = esc || x.escapesIn(b, lo)
+		}
+		if esc {
+			continue
+		}
+		used[v] = true
+		cl.objs[v] = lo
+	}
+}
+
+// escapesIn: within root, obj has its address taken or is mentioned inside a function literal.
+func (x *expander) escapesIn(root ast.Node, obj types.Object) bool {
+	found := false
+	var walk func(n ast.Node, inLit bool)
+	walk = func(n ast.Node, inLit bool) {
+		ast.Inspect(n, func(m ast.Node) bool {
+			if found || m == nil {
+				return false
+			}
+			switch t := m.(type) {
+			case *ast.FuncLit:
+				if !inLit {
+					walk(t.Body, true)
+					return false
+				}
+			case *ast.UnaryExpr:
+				if t.Op == token.AND {
+					if id, ok := ast.Unparen(t.X).(*ast.Ident); ok && (x.info.Uses[id] == obj) {
+						found = true
+					}
+				}
+			case *ast.Ident:
+				if inLit && (x.info.Uses[t] == obj || x.info.Defs[t] == obj) {
+					found = true
+				}
+			}
+			return true
+		})
+	}
+	walk(root, false)
+	return found
 }
 
 // inline expands call in context ctx.
@@ -726,6 +968,12 @@ func (x *expander) inline(call *ast.CallExpr, ctx *callCtx, depth int) ([]ast.St
 			i++
 		}
 	}
+	// a result that the callee accumulates in one local variable and returns at every return (or a zero value
+	// on the others) is accumulated directly in the caller's variable receiving it: `out := helper()` with
+	// `var acc []T; …; acc = append(acc, v); …; return acc` reads as if the caller had built `out` itself
+	if ctx.kind == ctxAssign && (ctx.assign.Tok == token.ASSIGN || ctx.assign.Tok == token.DEFINE) && os.Getenv("SIALINT_NOSHARE") == "" {
+		x.shareResults(cl, ctx.assign, srcBody, srcType, declared)
+	}
 	// named results
 	var named []types.Object
 	if srcType.Results != nil {
@@ -736,8 +984,8 @@ func (x *expander) inline(call *ast.CallExpr, ctx *callCtx, depth int) ([]ast.St
 					named = append(named, nil)
 					continue
 				}
-				def := &ast.Ident{NamePos: nm.Pos() + token.Pos(off), Name: nm.Name}
 				no := cl.mapObj(o)
+				def := &ast.Ident{NamePos: nm.Pos() + token.Pos(off), Name: no.Name()}
 				x.info.Defs[def] = no
 				named = append(named, no)
 				out = append(out, &ast.DeclStmt{Decl: &ast.GenDecl{TokPos: at, Tok: token.VAR, Specs: []ast.Spec{&ast.ValueSpec{Names: []*ast.Ident{def}}}}})
@@ -769,7 +1017,7 @@ func (x *expander) inline(call *ast.CallExpr, ctx *callCtx, depth int) ([]ast.St
 		}
 	})
 	if hasDefer && !(ctx.tail && (ctx.kind == ctxDiscard || ctx.kind == ctxReturn)) {
-		if !x.expandDefers(body, srcType) {
+		if !x.expandDefers(body, srcType, named) {
 			return nil, false
 		}
 	}
@@ -806,6 +1054,55 @@ func (x *expander) inline(call *ast.CallExpr, ctx *callCtx, depth int) ([]ast.St
 		}
 	case ctxCond:
 		target, testIdx, nonNilOnTrue = ctx.ifStmt, 0, !ctx.neg
+	}
+	// the outcome is dispatched by `switch v { case C1: … }` over constants right after the call
+	var swTarget *ast.SwitchStmt
+	swIdx := -1
+	swLabels := map[*ast.CaseClause]string{}
+	swAfter := ""
+	if ctx.kind == ctxAssign && target == nil {
+		if sw, ok := ctx.next.(*ast.SwitchStmt); ok && sw.Init == nil && sw.Tag != nil && x.constSwitch(sw) {
+			for i, l := range ctx.assign.Lhs {
+				if obj := x.objOf(l); obj != nil && x.objOf(sw.Tag) == obj {
+					swTarget, swIdx = sw, i
+				}
+			}
+		}
+	}
+	// caseLabel returns the label to jump to when the switch's tag holds the constant v
+	caseLabel := func(v constant.Value, pos token.Pos) string {
+		var hit, dflt *ast.CaseClause
+		for _, st := range swTarget.Body.List {
+			cc := st.(*ast.CaseClause)
+			if cc.List == nil {
+				dflt = cc
+			}
+			for _, e := range cc.List {
+				if tv, ok := x.info.Types[e]; ok && tv.Value != nil && hit == nil && constant.Compare(tv.Value, token.EQL, v) {
+					hit = cc
+				}
+			}
+		}
+		if hit == nil {
+			hit = dflt
+		}
+		if hit == nil {
+			if swAfter == "" {
+				swAfter = x.label("swend")
+				if x.after == nil {
+					x.after = map[ast.Stmt][]ast.Stmt{}
+				}
+				x.after[swTarget] = append(x.after[swTarget], labeled(swAfter, swTarget.End()))
+			}
+			return swAfter
+		}
+		if l, ok := swLabels[hit]; ok {
+			return l
+		}
+		l := x.label("case")
+		swLabels[hit] = l
+		hit.Body = append([]ast.Stmt{labeled(l, hit.Colon)}, hit.Body...)
+		return l
 	}
 	ensureBranchLabels := func() {
 		if thenL != "" || target == nil {
@@ -917,6 +1214,22 @@ func (x *expander) inline(call *ast.CallExpr, ctx *callCtx, depth int) ([]ast.St
 				if len(results) == 0 {
 					return nil
 				}
+				if len(as.Lhs) == len(results) {
+					// `v = v` (a result accumulated directly in the receiving variable) is no assignment
+					var l2, r2 []ast.Expr
+					for i := range as.Lhs {
+						if o := x.objOf(as.Lhs[i]); o != nil && o.Name() != "_" && x.objOf(results[i]) == o {
+							if _, isID := ast.Unparen(results[i]).(*ast.Ident); isID {
+								continue
+							}
+						}
+						l2, r2 = append(l2, as.Lhs[i]), append(r2, results[i])
+					}
+					if len(l2) == 0 {
+						return nil
+					}
+					return []ast.Stmt{&ast.AssignStmt{Lhs: l2, TokPos: pos, Tok: as.Tok, Rhs: r2}}
+				}
 				return []ast.Stmt{&ast.AssignStmt{Lhs: as.Lhs, TokPos: pos, Tok: as.Tok, Rhs: results}}
 			}
 			var lhs []ast.Expr
@@ -924,9 +1237,31 @@ func (x *expander) inline(call *ast.CallExpr, ctx *callCtx, depth int) ([]ast.St
 				lhs = append(lhs, lhsUse(l, pos))
 			}
 			st := []ast.Stmt{&ast.AssignStmt{Lhs: lhs, TokPos: pos, Tok: token.ASSIGN, Rhs: results}}
+			if len(lhs) == len(results) {
+				// `v = v` (a result accumulated directly in the receiving variable) is no assignment
+				var l2, r2 []ast.Expr
+				for i := range lhs {
+					if o := x.objOf(lhs[i]); o != nil && o.Name() != "_" && x.objOf(results[i]) == o {
+						if _, isID := ast.Unparen(results[i]).(*ast.Ident); isID {
+							continue
+						}
+					}
+					l2, r2 = append(l2, lhs[i]), append(r2, results[i])
+				}
+				if len(l2) == 0 {
+					st = nil
+				} else if len(l2) < len(lhs) {
+					st = []ast.Stmt{&ast.AssignStmt{Lhs: l2, TokPos: pos, Tok: token.ASSIGN, Rhs: r2}}
+				}
+			}
 			if testIdx >= 0 && ks != nil && len(results) == nres {
 				if j, ok := thread(ks[testIdx]); ok {
 					return append(st, j...)
+				}
+			}
+			if swTarget != nil && len(results) == nres {
+				if tv, ok := x.info.Types[results[swIdx]]; ok && tv.Value != nil {
+					return append(st, gotoStmt(caseLabel(tv.Value, pos), pos))
 				}
 			}
 			return append(st, jump()...)
@@ -982,7 +1317,9 @@ func (x *expander) inline(call *ast.CallExpr, ctx *callCtx, depth int) ([]ast.St
 	} else {
 		x.litStack = append(x.litStack, c.lit)
 	}
+	x.open = append(x.open, body)
 	body.List = x.blockT(body.List, depth+1, ctx.tail && (ctx.kind == ctxDiscard || ctx.kind == ctxReturn))
+	x.open = x.open[:len(x.open)-1]
 	if c.obj != nil {
 		x.stack = x.stack[:len(x.stack)-1]
 	} else {
@@ -1417,7 +1754,7 @@ func (x *expander) litForm(callp **ast.CallExpr, depth int) {
 // it is) when a defer is registered on only some of the paths to a return, when
 // a deferred function recovers, or when an operand of a deferred call is not
 // stable. Panics are not modelled (as everywhere in the path rules).
-func (x *expander) expandDefers(body *ast.BlockStmt, ftype *ast.FuncType) bool {
+func (x *expander) expandDefers(body *ast.BlockStmt, ftype *ast.FuncType, named []types.Object) bool {
 	// normalise `defer call(args)` to literals where possible
 	type deferred struct {
 		stmt *ast.DeferStmt
@@ -1485,15 +1822,56 @@ func (x *expander) expandDefers(body *ast.BlockStmt, ftype *ast.FuncType) bool {
 			written[o] = true
 		}
 	}
+	// named results that a deferred literal mentions: `return e` is `result = e; deferred calls; return result`
+	usesNamed := false
+	allNamed := len(named) > 0
+	for _, o := range named {
+		if o == nil || o.Name() == "_" {
+			allNamed = false
+		}
+	}
+	if allNamed {
+		isNamed := map[types.Object]bool{}
+		for _, o := range named {
+			isNamed[o] = true
+		}
+		for _, d := range ds {
+			ast.Inspect(d.lit.Body, func(n ast.Node) bool {
+				if id, isID := n.(*ast.Ident); isID && isNamed[x.info.Uses[id]] {
+					usesNamed = true
+				}
+				return true
+			})
+		}
+	}
 	body.List = mapReturns(body.List, func(r *ast.ReturnStmt) []ast.Stmt {
 		dl := plan[r]
 		if len(dl) == 0 {
 			return []ast.Stmt{r}
 		}
 		var out []ast.Stmt
+		if usesNamed && len(r.Results) > 0 {
+			var lhs, uses []ast.Expr
+			for _, o := range named {
+				l := &ast.Ident{NamePos: r.Pos(), Name: o.Name()}
+				x.info.Uses[l] = o
+				u := &ast.Ident{NamePos: r.Pos(), Name: o.Name()}
+				x.info.Uses[u] = o
+				if v, isVar := o.(*types.Var); isVar {
+					x.info.Types[l] = types.TypeAndValue{Type: v.Type()}
+					x.info.Types[u] = types.TypeAndValue{Type: v.Type()}
+				}
+				lhs, uses = append(lhs, l), append(uses, u)
+			}
+			out = append(out, &ast.AssignStmt{Lhs: lhs, TokPos: r.Pos(), Tok: token.ASSIGN, Rhs: r.Results})
+			r = &ast.ReturnStmt{Return: r.Return, Results: uses}
+		}
 		// results first
 		hoist := false
 		for _, e := range r.Results {
+			if usesNamed {
+				break // the function returns what its named results hold after the deferred calls
+			}
 			if containsCall(e) {
 				hoist = true
 			}
